@@ -1,5 +1,6 @@
 """Shared helpers for rule modules."""
 import os
+import re
 from .. import interp as I, nf
 from ..nf import RF, as_rf
 from ..tables import c3, c4, dot3, cross3, deref
@@ -567,3 +568,65 @@ def dget(v, name):
         if len(hits) == 1:
             return hits[0]
     return I.get_field(v, name)
+
+
+# --- trivial public accessors -------------------------------------------------------------------------------
+def accessor_consistency(ctx, F, rule, sfx, type_suffix, names, alias=None):
+    """Every public method `name(&self)` of the type returns the (possibly nested) field of the same name: what users observe through the
+    accessor is the value the construction rules talk about.  alias: {method name: field name} for accessors named differently."""
+    alias = alias or {}
+    cnt = 0
+    for nm in names:
+        cands = [b for b in F.bodies if strip_generics(b['path']).endswith('%s::%s' % (type_suffix, nm)) and b.get('kind') != 'Closure' and 'convex_cell_alternative' not in b['path']]
+        if len(cands) != 1:
+            ctx.incomplete(rule, 'accessor:%s::%s%s' % (type_suffix.split('::')[-1], nm, sfx), 'accessor not found (%d candidates)' % len(cands))
+            continue
+        b = cands[0]
+        if b.get('arg_count') != 1:
+            continue
+        ip = I.Interp(F)
+        self_ty = b['locals'][1]['ty']
+        base = self_ty.lstrip('&').strip()
+        me = I.Sym(nf.sym_atom('self'), base)
+        v, _ = ip.call_body(b, [ip.ref_to(me, self_ty)])
+        ctx.evaluations += ip.evaluations
+        txt = repr(I.frozen(v)).replace(' ', '')
+        want = alias.get(nm, nm)
+        # the returned value is the field `want` of self, possibly through embedded structs, as a whole (DVec3 prints component-wise)
+        m = re.match(r'^self((?:\.[A-Za-z_0-9]+)*)\.%s$' % re.escape(want), txt)
+        if not m:
+            m = re.match(r'^DVec3\{x:self((?:\.[A-Za-z_0-9]+)*)\.%s\.x,y:self\1\.%s\.y,z:self\1\.%s\.z\}$' % (re.escape(want), re.escape(want), re.escape(want)), txt)
+        cnt += 1
+        ctx.check(rule, 'accessor:%s::%s%s' % (type_suffix.split('::')[-1], nm, sfx), bool(m), txt[:100], 'self.<..>.%s' % want, where(b), key_extra='accessor:%s' % nm)
+    return cnt
+
+
+def integrals_start_from_zero(ctx, F, rule, sfx, trait):
+    """init() of every built-in integral of `trait` yields zero accumulators (area / volume / centroid); a non-zero start is added to every cell / face."""
+    n = 0
+    for imp in F.impls_of_trait(trait):
+        st = imp['self']
+        ib = F.body('<%s as %s>::init' % (st, trait), required=False)
+        if ib is None:
+            continue
+        leaves = [x for x in deep_fields(F, st) if x in ('area', 'volume', 'centroid')]
+        if not leaves:
+            continue
+        ip = I.Interp(F)
+        cell = I.Sym(nf.sym_atom('cell'), 'voronoi::convex_cell::ConvexCell<M>')
+        args = [ip.ref_to(cell)] + [RF.sym('k')] * (ib.get('arg_count', 1) - 1)
+        v, _ = ip.call_body(ib, args)
+        ctx.evaluations += ip.evaluations
+        bad = []
+        for lf in leaves:
+            x = dget(v, lf)
+            if isinstance(x, RF):
+                z = x.is_zero()
+            else:
+                from ..tables import c3
+                z = all(as_rf(c).is_zero() for c in c3(x))
+            if not z:
+                bad.append('%s = %s' % (lf, repr(x)[:40]))
+        n += 1
+        ctx.check(rule, '%s:starts-from-zero%s' % (st.split('::')[-1], sfx), not bad, bad or 'all accumulators zero', 'init() == zero accumulators', where(ib), key_extra='init-zero')
+    return n
